@@ -4,6 +4,7 @@ import (
 	"math/rand/v2"
 
 	"pvharness/pvcase"
+	"pvharness/pvterm"
 )
 
 // feat is the feature set of one case (derived from its profile and variant).
@@ -112,6 +113,13 @@ func (cg *caseGen) nonEmptyLit() *pvcase.Expr {
 	rs := []rune{cg.pick(cg.alpha)}
 	if cg.chance(0.25) {
 		rs = append(rs, cg.pick(cg.alpha))
+	}
+	for i := 0; rs[0] == 0xFFFD && i < len(cg.alpha); i++ {
+		// a literal of U+FFFD only matches at EOF without consuming
+		rs[0] = cg.alpha[i]
+	}
+	if rs[0] == 0xFFFD {
+		rs[0] = 'a'
 	}
 	return mkLit(rs, cg.chance(0.15))
 }
@@ -240,7 +248,7 @@ func (cg *caseGen) thrLabel(cx ectx) string {
 
 // ------------------------------------------------------------ expressions
 
-func litNullable(e *pvcase.Expr) bool { return e.Kind == pvcase.KLit && len(e.Runes) == 0 }
+func litNullable(e *pvcase.Expr) bool { return e.Kind == pvcase.KLit && pvterm.LitNullable(e) }
 
 // expr generates a random expression and reports whether it is possibly
 // nullable (conservatively).
